@@ -263,8 +263,11 @@ def run_one_path(ex, reg, contract, finfo, fres, label, hooks=None):
     if contract.setup:
         contract.setup(ex, env)
     cfr = ContractFrame(finfo, dict(env))
-    if kw:
-        cfr.env["kwargs"] = kw
+    from .builtins_model import KwMap
+    if kw is not None and (kw or isinstance(kw, KwMap)):
+        cfr.env["kwargs"] = kw if isinstance(kw, KwMap) else KwMap(kw)
+    if isinstance(kw, KwMap):
+        kw = {"__kwmap__": kw}
     for lab, text in contract.requires:
         v = _eval_clause(ex, text, cfr)
         st.assume(ex.bm.truth(v))
@@ -307,7 +310,12 @@ def check_post(ex, reg, contract, finfo, cfr, outcome, label, entry_max_id):
             st.prove(f"{label}/raises-iff:{cname}", ex.not_(ex.bm.truth(v)), kind="raises",
                      detail=f"normal return although `{cond}` demands {cname}", assume_after=False)
         for lab, text in contract.ensures:
-            v = _eval_clause(ex, text, cfr)
+            try:
+                v = _eval_clause(ex, text, cfr)
+            except PyRaise as pr:  # the clause is not even evaluable on this result (e.g. len() of a non-sequence)
+                st.prove(f"{label}/ensures:{lab}", False, kind="ensures",
+                         detail=f"{text} -- evaluating the clause raised {pr.exc.cls.__name__}", assume_after=False)
+                continue
             st.prove(f"{label}/ensures:{lab}", ex.bm.truth(v), kind="ensures", detail=text, assume_after=False)
     else:
         exc = outcome[1]
@@ -372,7 +380,7 @@ def apply_contract(ex, contract: Contract, fobj, args, kwargs, constructing=None
         selfobj = ex.bm.new_object(constructing)
         st.rec(selfobj)["open"] = True
         args = [selfobj] + list(args[1:])
-    env = ex.bind_params(finfo.node, args, kwargs if isinstance(kwargs, dict) else {}, qn)
+    env = ex.bind_params(finfo.node, args, kwargs, qn)
     cfr = ContractFrame(finfo, env)
     for lab, text in contract.requires:
         v = _eval_clause(ex, text, cfr)
@@ -480,6 +488,8 @@ def fresh_result(ex, contract):
         return None
     if callable(r):
         return r(ex)
+    if isinstance(r, tuple) and r[0] == "bytesn":
+        return SBytes.view(Base("res"), 0, r[1])
     if isinstance(r, tuple) and r[0] == "tuple":
         return tuple(ex.bm.loops.fresh(k, "res") for k in r[1])
     return ex.bm.loops.fresh(r, "res")
